@@ -170,10 +170,14 @@ class World:
                 parent = self.um[how[2]]
                 if parent.tname != tname:
                     return 'reject', 'definition of another type'
+                if O.val(how[1]) == 0:
+                    return 'reject', 'zero scale'
             elif how[0] == 'term':
                 fac, udim, tdim = self.term_denotation(how[1])
                 if tdim != tm.dim:
                     return 'reject', 'definition of another dimension'
+                if fac == 0:
+                    return 'reject', 'zero scale'
                 if tm.ref is None and tm.base:
                     # without a common scale the units themselves are the
                     # dimensions: the term has to reduce to one of them
@@ -195,8 +199,8 @@ class World:
                     sym = self.default_unit_symbol(
                         [[s, e] for (tn, e), s in zip(d, syms)])
             elif how[0] == 'none':
-                if tm.ref is not None:
-                    return 'unspecified', 'definition-less unit in ref type'
+                pass    # also in a type with reference unit: a unit without
+                #         scale, not convertible into the others
             if sym in self.um:
                 return 'reject', 'duplicate symbol'
             return 'ok', sym
